@@ -1087,6 +1087,129 @@ def _unprotect_results(ctx, prog):
     return res
 
 
+def _call_component(e):
+    """(call, i) when the evaluated expression is component i of the result of a call (`f(..)[i]`, however it was unpacked), else None"""
+    if isinstance(e, ast.Subscript) and isinstance(e.slice, ast.Constant) and isinstance(e.slice.value, int) and not isinstance(e.slice.value, bool) \
+            and isinstance(e.value, ast.Call):
+        return e.value, e.slice.value
+    return None
+
+
+def _is_self_call(e, name):
+    return isinstance(e, ast.Call) and chain(e.func) == "self." + name
+
+
+def _protect_results(ctx, prog):
+    """Facts of CanProtect.protect decided on every feasible returning path (kit.Runner: every local replaced by its value over the
+    entry state, the result of one call being one shared object, a dict display grown by item stores / update / setdefault being the
+    longer display).  What the clause is about are the *arguments of the encryption whose result leaves the function* (it is found
+    inside the values stored into the outer message / returned / handed to calls) and the map of unprotected fields handed to the
+    _compress call that produces the option.  Which arm of which `if` creates the map, whether the pair of the request travels through a
+    local, is unpacked at once or indexed, whether the new-nonce arm or the reuse arm comes first, whether the `None` pair of a request is an
+    initialisation, an else arm or a conditional expression does not exist at that level:
+      * nonce = self._construct_nonce(X[1], X[0], alg) with X one single call request_id.get_reusable_kid_and_piv() (two calls would
+        hand out (None, None) the second time), or nonce = Y[0] with Y = self._build_new_nonce(alg); a pair known to be (None, None)
+        folds the `is None` test, so it can never be seen feeding _construct_nonce unless the code really does that;
+      * AAD contains self._extract_external_aad(_, T, ..) with T the caller's request_id, or RequestIdentifiers(self.sender_id, P, ..) on a
+        path decided to be a request, P being the partial IV that went into the nonce of the same path (X[1] resp. Y[1]);
+      * on a path with a fresh nonce the option is _compress(_, U, _)[0] with U[COSE_PIV] = Y[1] of the same Y."""
+    if "protect" in _cache(prog):
+        return _cache(prog)["protect"]
+    fi = prog.func(CP + "protect")
+    pn = params(fi)
+    ctx.need(len(pn) >= 2, "protect signature changed")
+    msg, rid = pn[0], pn[1]
+    encs = [c for c in walk_no_nested(fi.node) if isinstance(c, ast.Call) and isinstance(c.func, ast.Attribute) and c.func.attr == "encrypt"]
+    ctx.floor("encrypt calls in protect", len(encs), 1)
+    paths = [q for q in kit.Runner(fi, prog, fork_values=True).paths() if q.end in ("return", "fall")]
+    ctx.floor("returning paths of protect", len(paths), 8)
+    res = {"fi": fi, "node": encs[0], "reuse": {0: [], 1: []}, "nonce": [], "aad_src": [], "plain": [], "aad": [], "aad_fresh": [], "aad_kinds": set(),
+           "fresh_piv": [], "kinds": {}}
+
+    def reusable_call(c):
+        return (isinstance(c, ast.Call) and isinstance(c.func, ast.Attribute) and c.func.attr == "get_reusable_kid_and_piv" and not c.args and not c.keywords
+                and isinstance(c.func.value, ast.Name) and c.func.value.id == rid)
+
+    for q in paths:
+        where = _describe(q)
+        roots = [ev[2] for ev in q.events if ev[0] == "store"] + [ev[1] for ev in q.events if ev[0] in ("call", "del")] + ([q.value] if q.value is not None else [])
+        seen, found, options = set(), [], []
+        for r in roots:
+            for x in ast.walk(r):
+                if id(x) in seen:
+                    continue
+                seen.add(id(x))
+                if isinstance(x, ast.Call) and isinstance(x.func, ast.Attribute) and x.func.attr == "encrypt":
+                    found.append(x)
+                c = _call_component(x)
+                if c is not None and c[1] == 0 and _is_self_call(c[0], "_compress") and not any(c[0] is o for o in options):
+                    options.append(c[0])
+        ctx.need(len(found) >= 1, "a returning path of protect on which no encryption result reaches the outer message [%s]" % where)
+        for enc in found:
+            ea, _ = bound_args(prog, enc, ALG_ENCRYPT)
+            ctx.need(ea is not None and len(ea) == 4, "encrypt call with unexpected arity")
+            # ---- nonce
+            nonce, kind, piv, Y = ea[3], None, None, None
+            nc = _call_component(nonce)
+            if _is_self_call(nonce, "_construct_nonce"):
+                na, _ = bound_args(prog, nonce, BS + "_construct_nonce")
+                ctx.need(na is not None and len(na) == 3, "_construct_nonce call with unexpected arity")
+                kind, piv = "reused", na[0]
+                comps = [_call_component(na[0]), _call_component(na[1])]
+                for pos, idx in ((0, 1), (1, 0)):
+                    c = comps[pos]
+                    okc = c is not None and reusable_call(c[0]) and c[1] == idx and comps[0] is not None and comps[1] is not None and comps[0][0] is comps[1][0]
+                    if not okc:
+                        res["reuse"][pos].append((q, "input %d is %s%s [%s]" % (pos, kit.txt(na[pos])[:70],
+                                                                               " (kid and partial IV come from two different calls)" if c is not None and reusable_call(c[0]) and c[1] == idx else "", where)))
+            elif nc is not None and nc[1] == 0 and _is_self_call(nc[0], "_build_new_nonce"):
+                kind, Y = "fresh", nc[0]
+                piv = ast.Subscript(value=Y, slice=ast.Constant(value=1), ctx=ast.Load())
+            else:
+                res["nonce"].append((q, "nonce: %s [%s]" % (kit.txt(nonce)[:80], where)))
+            if kind is not None:
+                res["kinds"][kind] = res["kinds"].get(kind, 0) + 1
+            # ---- plaintext
+            pc = _call_component(ea[0])
+            if not (pc is not None and pc[1] == 1 and _is_self_call(pc[0], "_split_message")):
+                res["plain"].append((q, "encrypted: %s [%s]" % (kit.txt(ea[0])[:80], where)))
+            # ---- request identifiers in the AAD
+            aads = [x for x in ast.walk(ea[1]) if _is_self_call(x, "_extract_external_aad")]
+            if not aads:
+                res["aad_src"].append((q, "aad: %s [%s]" % (kit.txt(ea[1])[:80], where)))
+            for c in aads:
+                xa = bound_args(prog, c, BS + "_extract_external_aad")[0]
+                ctx.need(xa is not None and len(xa) >= 2, "_extract_external_aad call with unexpected arity")
+                t = xa[1]
+                if isinstance(t, ast.Name) and t.id == rid:
+                    res["aad_kinds"].add("param")
+                elif isinstance(t, ast.Call) and qn(prog, fi, t.func) == "aiocoap.oscore.RequestIdentifiers" and len(bound_args(prog, t, "oscore.RequestIdentifiers.__init__")[0] or ()) >= 2:
+                    ra = bound_args(prog, t, "oscore.RequestIdentifiers.__init__")[0]
+                    res["aad_kinds"].add("fresh")
+                    isreq = any((match("%s.code.is_request()" % msg, cnd) is not None and out) or (match("%s.code.is_response()" % msg, cnd) is not None and not out) for cnd, out, _ in q.conds)
+                    if not isreq:
+                        res["aad_fresh"].append((q, "fresh request identifiers on a path that is not decided to be a request [%s]" % where))
+                    if not (chain(ra[0]) == "self.sender_id" and piv is not None and kit.same_val(ra[1], piv)):
+                        res["aad_fresh"].append((q, "RequestIdentifiers(%s, %s, ...) while the nonce is built from the partial IV %s [%s]" % (
+                            kit.txt(ra[0])[:40], kit.txt(ra[1])[:60], kit.txt(piv)[:60] if piv is not None else None, where)))
+                else:
+                    res["aad"].append((q, "request identifiers in the AAD: %s [%s]" % (kit.txt(t)[:60], where)))
+            # ---- a fresh partial IV travels in the option
+            if kind == "fresh":
+                ctx.need(len(options) >= 1, "a returning path of protect on which no self._compress(..)[0] reaches the outer message [%s]" % where)
+                for oc in options:
+                    oa, _ = bound_args(prog, oc, CP + "_compress")
+                    ctx.need(oa is not None and len(oa) == 3, "_compress call with unexpected arity")
+                    U = oa[1]
+                    ctx.need(isinstance(U, ast.Dict) and all(k is not None for k in U.keys),
+                             "the map of unprotected fields given to _compress is not a value the rule can enumerate: %s" % kit.txt(U)[:80])
+                    vals = [v for k, v in zip(U.keys, U.values) if _cose_key(prog, fi, k) == "COSE_PIV"]
+                    if not (vals and kit.same_val(vals[-1], piv)):
+                        res["fresh_piv"].append((q, "fresh nonce, but the option is compressed from %s [%s]" % (kit.txt(U)[:120], where)))
+    _cache(prog)["protect"] = res
+    return res
+
+
 @R.clause("C11.b", "request binding: the AAD carries the request's kid and partial IV, a response without PIV derives its nonce from them, nonce reuse is one-shot")
 def b(ctx):
     prog = ctx.prog
@@ -1143,85 +1266,28 @@ def b(ctx):
            detail="found %s" % sorted(UP["aad_kinds"]), construct="aad request_id kinds")
 
     # ---- protect -----------------------------------------------------------------------
-    fi = prog.func(CP + "protect")
-    pn = params(fi)
-    msg, rid = pn[0], pn[1]
-    fl = Flow(prog, fi, sanitisers=(), opaque_self_calls={"_split_message"}, path_sensitive=True)
-    ncs = self_calls(fi, "_construct_nonce")
-    ctx.floor("_construct_nonce calls in protect", len(ncs), 1)
-    for c in ncs:
-        na, _ = bound_args(prog, c, BS + "_construct_nonce")
-        ctx.need(na is not None and len(na) == 3, "_construct_nonce call with unexpected arity")
-        cn = fl.node_of(c)
-        for pos, idx in ((0, "[1]"), (1, "[0]")):
-            pl = _prim(fl.src(na[pos], cn))
-            arg = na[pos]
-            # the `None` initialisation of the pair's locals cannot reach a call that is dominated by `<local> is not None` (directly
-            # or through a named condition, which cond_has resolves); with the path-sensitive flow it normally does not even show up
-            if isinstance(arg, ast.Name) and (guarded_by(fl.cfg, cn, "%s is None" % arg.id, False)
-                                              or cond_has(fi.node, tuple(guard_exprs(fl.cfg, cn)), "%s is None" % arg.id, False) is not None):
-                pl = {l for l in pl if l[0] != ("const", "None")}
-            ok = pl == {(("param", rid), ".get_reusable_kid_and_piv()" + idx, True)}
-            ctx.ob("a reused nonce is built from the pair handed out by request_id.get_reusable_kid_and_piv()", ok, fi, c,
-                   detail="input %d sources: %s" % (pos, fmt_leaves(pl)), construct="reused nonce input %d" % pos)
-    encs = [c for c in walk_no_nested(fi.node) if isinstance(c, ast.Call) and isinstance(c.func, ast.Attribute) and c.func.attr == "encrypt"]
-    ctx.floor("encrypt calls in protect", len(encs), 1)
-    for e in encs:
-        en = fl.node_of(e)
-        ea, _ = bound_args(prog, e, ALG_ENCRYPT)
-        ctx.need(ea is not None and len(ea) == 4, "encrypt call with unexpected arity")
-        nl = _prim(fl.src(ea[3], en))
-        ok = bool(nl) and all(l[0] == ("self",) and l[1] in ("._construct_nonce()", "._build_new_nonce()[0]") for l in nl)
-        ctx.ob("the nonce given to encrypt is a reused or a freshly built one", ok, fi, e, detail="sources: %s" % fmt_leaves(nl))
-        aadl = fl.src(ea[1], en)
-        ctx.ob("the AAD given to encrypt is derived from _extract_external_aad", any(l[0] == ("self",) and l[1] == "._extract_external_aad()" for l in aadl), fi, e)
-        ptl = _prim(fl.src(ea[0], en))
-        ctx.ob("what is encrypted is the plaintext produced by _split_message", ptl == {(("self",), "._split_message()[1]", True)}, fi, e, detail="sources: %s" % fmt_leaves(ptl))
-    aads = self_calls(fi, "_extract_external_aad")
-    ctx.floor("_extract_external_aad calls in protect", len(aads), 1)
-    for c in aads:
-        an = fl.node_of(c)
-        xa, _ = bound_args(prog, c, BS + "_extract_external_aad")
-        ctx.need(xa is not None and len(xa) >= 2, "_extract_external_aad call with unexpected arity")
-        for t, tn, conds in fl.terminals(xa[1], an):
-            if not isinstance(t, ast.AST) and t.kind == "param" and t.name == rid:
-                ctx.ob("the AAD of a response is built from the identifiers of the request it answers", True, fi, c, construct="aad request_id <- parameter")
-            elif isinstance(t, ast.Call) and qn(prog, fi, t.func) == "aiocoap.oscore.RequestIdentifiers" and len(bound_args(prog, t, "oscore.RequestIdentifiers.__init__")[0] or ()) >= 2:
-                ra = bound_args(prog, t, "oscore.RequestIdentifiers.__init__")[0]
-                ok = is_request_cond(fi.node, conds, msg) is True
-                pivl = _prim(fl.src(ra[1], tn))
-                ok2 = chain(ra[0]) == "self.sender_id" and bool(pivl) and all(
-                    l in ((("self",), "._build_new_nonce()[1]", True), (("param", rid), ".get_reusable_kid_and_piv()[1]", True)) for l in pivl)
-                ctx.ob("a request's AAD identifiers are (own sender ID, partial IV of this message), built only for requests", ok and ok2, fi, t,
-                       construct="RequestIdentifiers(kid, piv) in protect")
-            else:
-                ctx.ob("the request identifiers in the AAD are the caller's or freshly built ones", False, fi, c,
-                       detail="source %s" % (stmt_text(t) if isinstance(t, ast.AST) else t.kind))
-    # a freshly generated partial IV travels in the option: every spelling of "insert COSE_PIV into a map" counts
-    # (`m[K] = v`, `m.update({K: v})`, `m.setdefault(K, v)`, `m |= {K: v}`, a display `{K: v}` / `{**m, K: v}` bound to a local)
-    fresh = []
-    for n in walk_no_nested(fi.node):
-        pairs = []
-        if isinstance(n, ast.Assign) and len(n.targets) == 1 and isinstance(n.targets[0], ast.Subscript):
-            pairs = [(n.targets[0].slice, n.value)]
-        elif isinstance(n, ast.Call) and isinstance(n.func, ast.Attribute) and n.func.attr == "update" and len(n.args) == 1 and isinstance(n.args[0], ast.Dict):
-            pairs = [(k, v) for k, v in zip(n.args[0].keys, n.args[0].values) if k is not None]
-        elif isinstance(n, ast.Call) and isinstance(n.func, ast.Attribute) and n.func.attr == "setdefault" and len(n.args) == 2:
-            pairs = [(n.args[0], n.args[1])]
-        elif isinstance(n, (ast.Assign, ast.AugAssign, ast.AnnAssign)) and isinstance(n.value, ast.Dict):
-            pairs = [(k, v) for k, v in zip(n.value.keys, n.value.values) if k is not None]
-        for k, v in pairs:
-            if _cose_key(prog, fi, k) == "COSE_PIV" and fl.cfg.locate(n):
-                fresh.append((n, v, fl.node_of(n)))
-    builds = [fl.node_of(c) for c, _ in find("self._build_new_nonce($*a)", fi.node)]
-    ctx.floor("_build_new_nonce calls in protect", len(builds), 1)
-    okf = False
-    for s, v, nid in fresh:
-        pl = _prim(fl.src(v, nid))
-        if pl == {(("self",), "._build_new_nonce()[1]", True)} and any(fl.cfg.dominates(bn, nid) for bn in builds):
-            okf = all(fl.cfg.must_pass(bn, [nid]) for bn in builds)
-    ctx.ob("a freshly generated partial IV is always placed into the OSCORE option", okf, fi, fresh[0][0] if fresh else fi.node,
+    PR = _protect_results(ctx, prog)
+    fi, anchor = PR["fi"], PR["node"]
+    for pos in (0, 1):
+        bad = PR["reuse"][pos]
+        ctx.ob("a reused nonce is built from the pair handed out by request_id.get_reusable_kid_and_piv()", not bad, fi, anchor,
+               detail=_first(bad), construct="reused nonce input %d" % pos)
+    ctx.ob("the nonce given to encrypt is a reused or a freshly built one", not PR["nonce"], fi, anchor, detail=_first(PR["nonce"]),
+           construct="nonce given to encrypt in protect")
+    ctx.ob("the AAD given to encrypt is derived from _extract_external_aad", not PR["aad_src"], fi, anchor, detail=_first(PR["aad_src"]),
+           construct="aad given to encrypt in protect")
+    ctx.ob("what is encrypted is the plaintext produced by _split_message", not PR["plain"], fi, anchor, detail=_first(PR["plain"]),
+           construct="plaintext given to encrypt in protect")
+    ctx.ob("the request identifiers in the AAD are the caller's or freshly built ones", not PR["aad"], fi, anchor, detail=_first(PR["aad"]),
+           construct="aad request_id <- parameter | RequestIdentifiers(...) in protect")
+    ctx.ob("a request's AAD identifiers are (own sender ID, partial IV of this message), built only for requests", not PR["aad_fresh"], fi, anchor,
+           detail=_first(PR["aad_fresh"]), construct="RequestIdentifiers(kid, piv) in protect")
+    ctx.ob("both kinds of request identifiers (caller's for responses, fresh for requests) reach the AAD of protect", PR["aad_kinds"] == {"param", "fresh"}, fi, anchor,
+           detail="found %s" % sorted(PR["aad_kinds"]), construct="aad request_id kinds in protect")
+    ctx.ob("a freshly generated partial IV is always placed into the OSCORE option", not PR["fresh_piv"], fi, anchor, detail=_first(PR["fresh_piv"]),
            construct="unprotected[COSE_PIV] <- _build_new_nonce()[1]")
+    ctx.floor("paths of protect that encrypt with a freshly built nonce", PR["kinds"].get("fresh", 0), 1)
+    ctx.floor("paths of protect that encrypt with the request's nonce", PR["kinds"].get("reused", 0), 1)
 
     # ---- one-shot reuse -------------------------------------------------------------------
     # decided per path (kit.Runner): whenever a pair other than (None, None) is returned, the flag was read as true on that path and a
@@ -2406,6 +2472,20 @@ R.seed("C11.b", F_OS, "            partial_iv_generated_by = request_id.kid\n", 
 R.seed("C11.b", F_OS, "            self.can_reuse_nonce = False\n            return", "            return", "nonce can be reused more than once")
 R.seed("C11.b", F_OS, "            unprotected[COSE_PIV] = partial_iv_short\n", "            pass\n", "fresh partial IV not sent")
 R.seed("C11.b", F_OS, "plaintext = alg_symmetric.decrypt(ciphertext, aad, key, nonce)", "plaintext = alg_symmetric.decrypt(ciphertext, aad, key, self.common_iv)", "nonce not derived from the identifiers")
+R.seed("C11.b", F_OS, "            nonce = self._construct_nonce(\n                partial_iv_short, partial_iv_generated_by, alg_symmetric\n            )\n\n        if message.code.is_request():",
+       "            nonce = self._construct_nonce(\n                partial_iv_generated_by, partial_iv_short, alg_symmetric\n            )\n\n        if message.code.is_request():",
+       "protect: kid and partial IV of the request swapped when its nonce is rebuilt")
+R.seed("C11.b", F_OS, "            partial_iv_generated_by, partial_iv_short = (\n                request_id.get_reusable_kid_and_piv()\n            )\n",
+       "            partial_iv_generated_by = request_id.get_reusable_kid_and_piv()[0]\n            partial_iv_short = request_id.get_reusable_kid_and_piv()[1]\n",
+       "protect: the one-shot pair is asked for twice; the second call hands out (None, None)")
+R.seed("C11.b", F_OS, "                self.sender_id,\n                partial_iv_short,\n                can_reuse_nonce=None,", "                self.recipient_id,\n                partial_iv_short,\n                can_reuse_nonce=None,",
+       "protect: a request's identifiers carry the recipient ID instead of the sender ID")
+R.seed("C11.b", F_OS, "        if message.code.is_request():\n            unprotected[COSE_KID] = self.sender_id\n\n            request_id = RequestIdentifiers(",
+       "        if message.code.is_request() or self.responses_send_kid:\n            unprotected[COSE_KID] = self.sender_id\n\n            request_id = RequestIdentifiers(",
+       "protect: merging the two KID stores makes a response that sends its KID bind to identifiers of its own instead of the request's")
+R.seed("C11.b", F_OS, "            nonce, partial_iv_short = self._build_new_nonce(alg_symmetric)\n            partial_iv_generated_by = self.sender_id\n",
+       "            nonce, partial_iv_short = self._build_new_nonce(alg_symmetric)\n            _, partial_iv_short = self._build_new_nonce(alg_symmetric)\n            partial_iv_generated_by = self.sender_id\n",
+       "protect: the partial IV sent and bound in the AAD comes from another sequence number than the nonce")
 R.seed("C11.c", F_OS, "alg.iv_bytes - 6 - len(piv_generator_id)", "alg.iv_bytes - 5 - len(piv_generator_id)", "ID padding off by one")
 R.seed("C11.c", F_OS, "components = s + pad_id + piv_generator_id + pad_piv + partial_iv_short", "components = s + pad_id + partial_iv_short + pad_piv + piv_generator_id", "ID and PIV swapped in the nonce")
 R.seed("C11.c", F_OS, 'partial_iv = seqno.to_bytes(5, "big")', 'partial_iv = seqno.to_bytes(5, "little")', "little-endian partial IV")
